@@ -569,3 +569,21 @@ def r19_extend_cloned(text, log):
         log.append(dict(rule='R19', before=norm_ws(mm.group(0)), after=new))
         return new
     return _R19.sub(repl, text)
+
+
+_R20 = re.compile(r'((?:[A-Za-z_][A-Za-z0-9_]*)(?:\.[A-Za-z_][A-Za-z0-9_]*)*)\s*\.extend\(\s*std::mem::take\(\s*&mut\s+([^()]*?(?:\[[^\]]*\])?)\s*\)\s*\.into_iter\(\)\s*\.map\(\s*\|\s*\(\s*_\s*,\s*([a-z_][a-z0-9_]*)\s*\)\s*\|\s*\3\s*\)\s*\)')
+
+
+def r20_extend_taken(text, log):
+    """R20: `DST.extend(std::mem::take(&mut SRC).into_iter().map(|(_, x)| x))` -> `extend_with_taken_ids(&mut DST, &mut SRC)`: a wrapper
+    the unit defines, whose body is the original statement (IntoIter/Map adapters and closures over tuple patterns are outside
+    Verus): SRC is emptied, the second components of its entries are appended to DST in order."""
+    mask = code_mask(text)
+
+    def repl(mm):
+        if mask[mm.start()] != CODE:
+            return mm.group(0)
+        new = 'extend_with_taken_ids(&mut %s, &mut %s)' % (mm.group(1), mm.group(2))
+        log.append(dict(rule='R20', before=norm_ws(mm.group(0)), after=new))
+        return new
+    return _R20.sub(repl, text)
